@@ -100,6 +100,11 @@ EXPRESSION_PATTERN = re.compile(
 )
 
 
+# A reserved word (literal or operator keyword) at the start of the value, or at the start of
+# an expression segment, followed by a non-word character.
+_RESERVED_LEADING_WORD_PATTERN = re.compile(r"(?:^|[" + _UNICODE_OPS + r"])(?:true|false|null|vs)\b")
+
+
 def _sort_children_by_key(children: list[Any]) -> list[Any]:
     """Sort AST children by key for key_sorting option.
 
@@ -141,6 +146,11 @@ def needs_quotes(value: Any) -> bool:
     # Reserved words need quotes to avoid becoming literals or operators
     # This includes boolean/null literals and operator keywords
     if value in ("true", "false", "null", "vs"):
+        return True
+
+    # The lexer matches these words at a word boundary, so a longer bare word that
+    # merely starts with one (true.x, vs-1, A→null.y) would be split on re-read.
+    if _RESERVED_LEADING_WORD_PATTERN.search(value):
         return True
 
     # Issue #181: Variables ($VAR, $1:name) don't need quotes
